@@ -46,6 +46,9 @@ type project struct {
 	// empty), as a caller does that has no names for its texts
 	OneName    string `json:"one_name,omitempty"`
 	UseOneName bool   `json:"use_one_name,omitempty"`
+	// OwnTables: the table of every type holds objects of its own for the other types (made from the same texts)
+	// instead of the objects registered in the root: what a name means is the same everywhere, the objects differ
+	OwnTables bool `json:"own_tables,omitempty"`
 }
 
 // fileName is the file name an object of the project is created under.
@@ -167,6 +170,13 @@ func (p project) build() (*jschema.JSchema, error) {
 		}
 		for _, u := range p.Types {
 			if us, ok := s.UserTypeCollection[u.Name]; ok {
+				if p.OwnTables && u.Name != t.Name {
+					if u.Regex {
+						us = newRegexAs(u.Name, p.fileName(u.Name), u.Text)
+					} else {
+						us = newJSchemaAs(u.Name, p.fileName(u.Name), u.Text)
+					}
+				}
 				if err := tt.AddType(u.Name, us); err != nil {
 					return s, err
 				}
